@@ -78,13 +78,21 @@ def run_point(pt):
     backend, k, mode, caught, auto = pt[:5]
     d = tempfile.mkdtemp(prefix="pv-c18-")
     try:
+        flags = pt[9] if len(pt) > 9 and pt[9] else ""
+        stale = b"\xab" * 300000
+        if "stale" in flags:
+            # artefact files of an earlier, LARGER run are already in the working directory
+            for f in ARTEFACTS[backend] + (["pysnark_eqs", "pysnark_wires", "pysnark_values"] if backend == "qaptools" else []):
+                with open(os.path.join(d, f), "wb") as fh:
+                    fh.write(stale)
         cfg = {"backend": backend, "k": k, "mode": mode, "caught": caught, "autoprove": auto, "prehook": len(pt) > 5 and pt[5], "operation": pt[6] if len(pt) > 6 else None, "nstmts": pt[7] if len(pt) > 7 else None, "shape": pt[8] if len(pt) > 8 else 0}
-        r = subprocess.run([common.PY, SCRIPT, json.dumps(cfg)], cwd=d, env=child_env(backend), capture_output=True,
+        r = subprocess.run([common.PY] + (["-O"] if "O" in flags.split("+") else []) + [SCRIPT, json.dumps(cfg)], cwd=d, env=child_env(backend), capture_output=True,
                            text=True, start_new_session=True, timeout=120)
         status = r.returncode
         calls = len(open(os.path.join(d, "prove_calls")).read()) if os.path.exists(os.path.join(d, "prove_calls")) else 0
         bn = open(os.path.join(d, "backend_name")).read() if os.path.exists(os.path.join(d, "backend_name")) else None
-        present = [f for f in ARTEFACTS[backend] if os.path.exists(os.path.join(d, f))]
+        present = [f for f in ARTEFACTS[backend] if os.path.exists(os.path.join(d, f)) and
+                   not ("stale" in flags and open(os.path.join(d, f), "rb").read() == stale)]
         size = decode_trace_size(backend, d) if present and len(present) == len(ARTEFACTS[backend]) else None
         hook_tb = "Traceback" in r.stderr and ("atexit" in r.stderr or "final" in r.stderr or "process_snark" in r.stderr)
         return {"pt": pt, "status": status, "calls": calls, "present": present, "size": size, "backend_name": bn,
@@ -115,6 +123,8 @@ def judge(res):
         base["prehook"] = True
     if len(res["pt"]) > 6 and res["pt"][6]:
         base["operation"] = res["pt"][6]
+    if len(res["pt"]) > 9 and res["pt"][9]:
+        base["env"] = res["pt"][9]
     if auto and success:
         if res["calls"] != 1:
             out.append((dict(base, klass="successful-run-not-proved" if res["calls"] == 0 else "proved-more-than-once"),
@@ -152,6 +162,11 @@ def points(thorough, seed):
             pts.append((backend, k, mode, "none", True, False, None, 600))
         for shape in (1, 2, 3, 4):
             pts.append((backend, 600, "fall", "none", True, False, None, 600, shape))
+    # interpreter run with -O (assert statements compiled out) / artefact files of a larger earlier run already present
+    for backend in ("snarkjs", "zkinterface", "qaptools"):
+        for flags in ("O", "stale", "O+stale"):
+            for k, mode in ((3, "fall"), (2, "exit(0)"), (1, "exit(1)"), (2, "ValueError")):
+                pts.append((backend, k, mode, "none", True, False, None, None, 0, flags))
     # automatic proving off and a separate step requested (runtime.operation set)
     for backend in BACKENDS if thorough else ("snarkjs", "zkinterface", "nobackend"):
         for k, mode, opn in itertools.product((0, 3), ("fall", "exit(0)", "exit(1)", "ValueError"), ("prove", "keygen", "verify")):
@@ -175,7 +190,7 @@ def run(ctx):
             shapes.add((res["pt"][0], res["status"], res["calls"], len(res["present"])))
             nprove += res["calls"]
         for sig, text in judge(res):
-            ctx.violation(sig, {"pt": list(res["pt"])}, "backend=%s stop-before-statement=%d mode=%s caught=%s autoprove=%s%s: %s" % (tuple(res["pt"][:5]) + ((" (exception hook pre-installed)" if len(res["pt"]) > 5 and res["pt"][5] else "") + ((" (runtime.operation=%s)" % res["pt"][6]) if len(res["pt"]) > 6 and res["pt"][6] else ""), text)))
+            ctx.violation(sig, {"pt": list(res["pt"])}, "backend=%s stop-before-statement=%d mode=%s caught=%s autoprove=%s%s: %s" % (tuple(res["pt"][:5]) + ((" (exception hook pre-installed)" if len(res["pt"]) > 5 and res["pt"][5] else "") + ((" (%s)" % res["pt"][9]) if len(res["pt"]) > 9 and res["pt"][9] else "") + ((" (runtime.operation=%s)" % res["pt"][6]) if len(res["pt"]) > 6 and res["pt"][6] else ""), text)))
     from .. import e1
     e1.dedupe_violations(ctx)
     ctx.cov["states"] = len(shapes)
